@@ -416,6 +416,7 @@ impl G {
             "c13" => self.mode_c13(),
             "c20" => self.mode_c20(),
             "c10" => self.mode_c10(),
+            "c18" => self.mode_c18(),
             "c06" => self.mode_c06(),
             "c07" => {
                 self.setup_channels(0, 3);
@@ -855,6 +856,57 @@ impl G {
         for _ in 0..(n + 2) {
             self.recv_some();
         }
+    }
+
+    /// C18 at the level of one channel event: handle_channel_readable against a small
+    /// high-water mark - how much of a mailbox one wake-up takes, what stays, when a re-poll is
+    /// owed (also for a wake-up of a slot that is gone)
+    fn mode_c18(&mut self) {
+        self.no_random_teardown = true;
+        self.setup_channels(1, 3);
+        let marks = [0usize, 12, 13, 30, 100, 400, 16 << 20];
+        let h = *self.rng.pick(&marks);
+        self.w.set_high(h);
+        let n = self.rng.range(6, 26);
+        for _ in 0..n {
+            if self.w.errored || self.w.dead {
+                break;
+            }
+            match self.rng.below(9) {
+                0..=2 => {
+                    if let Some(ch) = self.some_open() {
+                        for _ in 0..self.rng.range(1, 3) {
+                            self.client_send(ch);
+                        }
+                    }
+                }
+                3 | 4 => {
+                    if let Some(ch) = self.some_open() {
+                        self.w.event_chan(ch);
+                        self.w.need();
+                    }
+                }
+                5 => {
+                    let l = self.w.outbuf_len();
+                    if l > 0 {
+                        let k = self.rng.range(1, l as u64) as usize;
+                        let mut r = self.rng.fork();
+                        self.w.stream(Some(vec![Wr::Wrote(k), Wr::Block]), None, &mut r);
+                    }
+                }
+                6 => {
+                    let h = *self.rng.pick(&marks);
+                    self.w.set_high(h);
+                }
+                7 => {
+                    let c = self.some_closed();
+                    self.w.event_chan(c);
+                    self.w.need();
+                }
+                _ => self.w.peek_out(),
+            }
+        }
+        self.w.peek_out();
     }
 
     /// C10 at the level of the I/O thread: ids at the boundaries of the range are opened,
